@@ -12,7 +12,12 @@ RULE = ("random client histories with a transport fault (receive error, send err
         "the release AND the debug build (arithmetic overflow panics); a zoo of extreme frames; a write error on every kind of frame the client writes (call, "
         "notification, batch, subscribe, unsubscribe from unsubscribe()/drop/lagging stream/abandoned subscribe) with other work pending and a "
         "silent receive side; plus the shutdown-protocol engine "
-        "clifault (slow transport close, calls issued inside the shutdown window).  Oracle on the implementation alone: no panic, "
+        "clifault (slow transport close, calls issued inside the shutdown window; with ClientBuilder::enable_ws_ping in REAL time: "
+        "pending call + batch + subscribe then a silence of limit*(max_failures+2)+2*interval ms -> everything fails with the inactivity "
+        "cause, pongs / answers / notifications every 25 ms for longer than that -> stays up and answers everything, a ping that "
+        "cannot be written -> send-fault cause, three partly stale silences -> the count is cumulative; max_failures 1..3, three "
+        "interval/limit pairs, slow close; cases whose measured gaps left the safe classes are re-run, not judged).  "
+        "Oracle on the implementation alone: no panic, "
         "every pending and every later call/batch/subscribe completes with the disconnect cause (never a placeholder, never "
         "ServiceDisconnect/timeout), on_disconnect reports a classified cause")
 
